@@ -24,7 +24,7 @@ func callsOn(d *declInfo, node ast.Node, obj types.Object, name string) []*ast.C
 			return true
 		}
 		sel, ok := ce.Fun.(*ast.SelectorExpr)
-		if ok && sel.Sel.Name == name && objOf(d.pkg, sel.X) == obj && obj != nil {
+		if ok && calleeBase(d, ce, sel.Sel.Name) == name && objOf(d.pkg, sel.X) == obj && obj != nil {
 			out = append(out, ce)
 		}
 		return true
@@ -706,4 +706,14 @@ func runC10(c *Ctx) {
 	c.rule(RL, loopRuleText)
 	lds := pkgFilter(c.reachDecls(RL, "sbom.(*NodeList).Intersect"), "sbom.(*NodeList).", "sbom.(*Edge).AddDestinationById")
 	c.loopTotality(RL, lds, loopPolicies, commonSkips)
+}
+
+// calleeBase: the method/function name a call resolves to, under its recorded (canonical) name —
+// a renamed unexported helper still answers to the name the tables use.
+func calleeBase(d *declInfo, ce *ast.CallExpr, fallback string) string {
+	if f, _ := typeutil.Callee(d.pkg.TypesInfo, ce).(*types.Func); f != nil {
+		n := objName(f)
+		return n[strings.LastIndex(n, ".")+1:]
+	}
+	return fallback
 }
